@@ -38,7 +38,8 @@ claim(
     "more names are not decided. Also decided: every package of two modules (three in the thorough tier, 16000 packages) in which each "
     "module defines, imports or lacks a name and may star-import a sibling or itself goes through expand_exports, expand_wildcards and two "
     "rounds of resolve_aliases without raising, the second round changes nothing, and no imported alias is left resolved with an "
-    "unresolvable chain; no recursion between properties passes through an alias proxy; the dataclasses extension (run by load()) "
+    "unresolvable chain, resolve_aliases hands back exactly the imports that cannot be resolved, star imports through another name of a module "
+    "work, target paths may run through other aliases; no recursion between properties passes through an alias proxy; the dataclasses extension (run by load()) "
     "dereferences no possibly-alias member unguarded. Several packages loaded in different orders and external=True loads are not decided.",
     TB + "; tabled dereference exceptions each carry a reason in sa/rules/C06.py",
 )
@@ -64,7 +65,8 @@ claim(
     "(thorough, 37k pairs) parameters: silence on identity, soundness of every yield, always-reported changes, and completeness against "
     "the calling convention (every call shape up to arity+1 with every keyword subset). Any logically equivalent rewrite of the conditions "
     "passes; any changed row is the witness. Every one-parameter transition is also decided with `*args, **kwargs` next to the regular "
-    "parameters. Other interplays of three or more parameters and expression-valued defaults are outside the domain.",
+    "parameters; the Parameters container answers membership and lookups from its current contents after every history of up to three "
+    "additions, replacements and deletions. Other interplays of three or more parameters and expression-valued defaults are outside the domain.",
     TB + "; CPython's own function-call binder is the reference for 'binds'; variadics carry the marker defaults griffe's agents store",
 )
 claim(
@@ -80,7 +82,8 @@ claim(
     'in a plain or conditional position, and sequences of definitions of the same kind. For each: one member per bound name, kind of the surviving binding under the tie-break, '
     'parent, line span (decorators included) whose Object.lines slice parses back to the definition, decorators and their spans, '
     'docstring text and span, attribute docstrings, runtime flag, and the announcement trace (each object exactly once, parent first, '
-    'kind-specific events, members-complete after the last member). Plus: handler coverage, the seven visibility predicates on up to '
+    'kind-specific events, members-complete after the last member). Plus: exports equal what the surviving `__all__` statements list, every registered '
+    'extension (also one inheriting its hooks) hears every event, handler coverage, the seven visibility predicates on up to '
     '960 abstract states, label tables, no KeyError escape. Not decided: modules beyond two definitions of interest, __all__ '
     'evaluation, totality on arbitrary valid Python.',
     TB + "; the reference for the extraction table is read off the module's syntax tree by sa/tables/extraction.py (ast + the tie-break rule as stated in the property); visibility table transcribed from the is_public docstring / docs/guide/users/navigating.md / Language Reference 7.11",
@@ -150,7 +153,8 @@ claim(
     "and docstring sections: anything the schema requires is always written, anything written is declared, every JSON shape a value can "
     "take is allowed, every section kind the code can emit is listed and is written as the schema's string for each section class; "
     "relative_package_filepath is the path below the top package for every layout the loader builds; the kind of a synthesised dataclass "
-    "parameter is a ParameterKind member on every path; Alias.as_dict raises no alias error. Validation of concrete generated "
+    "parameter is a ParameterKind member on every path; Alias.as_dict raises no alias error; relative_filepath follows the working directory; "
+    "values and defaults recorded by the inspector are text. Validation of concrete generated "
     "dumps is not performed.",
     TB + "; docs/schema.json is read at run time; provenance tables (decorator linenos, parameter kinds) are verified structurally",
 )
@@ -167,7 +171,8 @@ claim(
     'alias error can escape a merge; a stub definition whose name the stub scope also imports is merged like any other; stubs merged '
     "into an alias reach its target; _load_package expands the runtime module's wildcard imports (private sibling allowed) after loading "
     'it and before loading its stubs, for every layout; a runtime member re-exported through two imports receives the stubs at the end '
-    'of the chain; the stubs-only package is found by the top-level name for dotted object paths.',
+    'of the chain; stub overloads go to runtime functions only; a second merge of the same stubs changes nothing; the stubs-only package '
+    'is found by the top-level name for dotted object paths.',
     TB + '',
 )
 claim(
@@ -197,7 +202,8 @@ claim(
     "name, __init__ parameter, unknown, module name) and over (depth, init?, level, module?) for relative imports; they are compared with "
     "Python's scoping rule / importlib. The names inside a quoted annotation are resolved in the scope it is written in and built afresh "
     "for each occurrence; a name resolved once and then re-bound resolves to the new binding; the bases and decorators of a class statement are "
-    "evaluated in the scope containing it; an explicit import followed or preceded by wildcard imports binds what CPython binds. Resolution raises only "
+    "evaluated in the scope containing it; a name imported and bound again resolves to the later binding; what follows a call or subscript "
+    "never takes the callee's path; an explicit import followed or preceded by wildcard imports binds what CPython binds. Resolution raises only "
     "NameResolutionError and the expression side swallows it. Resolution over "
     "generated multi-module packages is not decided.",
     TB + "; the reference scoping rule is written in the rule module (class scopes do not nest; functions see their class body)",
@@ -240,7 +246,8 @@ claim(
     "the documented table, the static side's parameters and import aliases are what CPython binds (what the inspector observes), and "
     "inspect_class records the class's own direct bases for plain, generic, parametrised and protocol hierarchies, handle_function "
     "records exactly the runtime signature's parameters also when postponed annotations name nothing that exists, every name bound in a "
-    "namespace (to a built-in class, None, a constant ...) becomes a child, and what the visitor builds for a definition does not depend "
+    "namespace (to a built-in class, None, a constant ...) becomes a child, recorded values and defaults are text whatever the runtime object, "
+    "definitions are found in every block context, and what the visitor builds for a definition does not depend "
     "on the definitions before it. Equality of the two "
     'trees on real modules is not decided.',
     TB + '; classes and functions handed to the inspector are synthesised in the rule; inspect.signature on them is the reference',
@@ -255,7 +262,9 @@ claim(
     'Decided: which file provides a package (first search path wins, directory before module file, namespace portions, stubs), that a '
     'package requested by path wins over a same-named one on the search paths, which sub-modules are listed with which dotted parts, '
     'that a directory reachable under two names through symlinks is listed under both, that a sub-package wins over a module file of '
-    'the same name, that a search path entry that is a file or is missing is skipped, that files under a directory whose name '
+    'the same name, that portions of a namespace package follow the import system (first provider of a name wins, regular packages '
+    'hide other portions), that pkgutil / pkg_resources declarations are recognised in their usual spellings, that a search path entry '
+    'that is a file or is missing is skipped, that a directory merely named like a search path is not inside it, that files under a directory whose name '
     'contains a dot are skipped, that .pth files add existing directories once in sorted file order, that results do not depend on the '
     'listing order, how modules are classified. Not decided: agreement with pkgutil.walk_packages on generated trees; where .pth '
     'additions go relative to later configured search paths.',
